@@ -22,9 +22,25 @@ Fixpoint run_history (m : option memo) (ops : list tree) : list tree :=
         let '(r, m', pulled) := read_stream legacy m file a in
         Nd [of_result of_pose r; of_n pulled] :: run_history m' rest
   end.
+(* (5 (file0 file1 ...) ((idx kind args) ...)): the same, files given once and referred to by index *)
+Fixpoint run_history5 (files : list (list N)) (m : option memo) (ops : list tree) : list tree :=
+  match ops with
+  | [] => []
+  | op :: rest =>
+      let file := nth (t_nat (t_nth 0 op)) files [] in
+      let kind := t_z (t_nth 1 op) in
+      let a := t_rargs (t_nth 2 op) in
+      if (kind =? 0)%Z then
+        let '(r, m') := read_bytes legacy m file a in
+        Nd [of_result of_pose r; L 0] :: run_history5 files m' rest
+      else
+        let '(r, m', pulled) := read_stream legacy m file a in
+        Nd [of_result of_pose r; of_n pulled] :: run_history5 files m' rest
+  end.
 Definition dispatch_with (t : tree) : tree :=
   let op := t_z (t_nth 0 t) in
   if (op =? 1)%Z then of_result of_ns (write_pose (t_wpose (t_nth 1 t)))
   else if (op =? 4)%Z then Nd (run_history None (t_list (t_nth 1 t)))
+  else if (op =? 5)%Z then Nd (run_history5 (map t_ns (t_list (t_nth 1 t))) None (t_list (t_nth 2 t)))
   else Nd [L 0; L (-1)].
 End Run.
